@@ -15,7 +15,8 @@ def jobs_for(ck, beh):
     o = {"so": c["so"], "SF": c["SF"], "PF": c["PF"], "Start": c["Start"],
          "graft": (["RMSPROP", "SGD"][i % 2] if c["graft"] else "NONE"),
          "decay": [1.0, 0.5][(i // 2) % 2], "momentum_decay": [0.0, 0.5][(i // 3) % 2],
-         "block_size": 2 if (c["so"] == "shampoo" and i % 3 == 0) else 1024, "rank": 2, "lr": 0.25, "merge_dims": 3, "ekfac": c.get("ekfac", False)}
+         "block_size": 2 if (c["so"] == "shampoo" and i % 3 == 0) else 1024, "rank": 2, "lr": 0.25, "merge_dims": 3, "ekfac": c.get("ekfac", False),
+         "add_ggt": c["so"] == "sketchy" and (i // 2) % 2 == 1}     # with decay 0.5: at decay 1 the moving GGT stays 0
     if c["skipped"]:
       shapes, target = [(3, 3), (5,)], 1
     else:
